@@ -10,6 +10,7 @@ import (
 
 	"sigs.k8s.io/yaml"
 	"tags.cncf.io/container-device-interface/pkg/cdi"
+	"tags.cncf.io/container-device-interface/pkg/parser"
 	specs "tags.cncf.io/container-device-interface/specs-go"
 	"verif/harness/hx"
 )
@@ -142,6 +143,16 @@ func roundTrip09(dir string, idx int, enc int, s *specs.Spec) back09 {
 	if enc == 2 {
 		path += ".yaml"
 	}
+	// one case in three: the file to be written is already there — an older Spec of another vendor in the other encoding's
+	// syntax, a longer text, a file without write permission — and must be replaced as a whole
+	switch (idx + enc) % 9 {
+	case 0:
+		_ = os.WriteFile(path, []byte(`{"cdiVersion":"0.3.0","kind":"old.example.org/stale","devices":[{"name":"stale","containerEdits":{"env":["STALE=1"]}}]}`+strings.Repeat(" ", 4096)+"\n"), 0o644)
+	case 3:
+		_ = os.WriteFile(path, []byte("---\ncdiVersion: 0.3.0\nkind: old.example.org/stale\ndevices:\n- name: stale\n  containerEdits:\n    env:\n    - STALE=1\n"+strings.Repeat("# padding\n", 2000)), 0o444)
+	case 6:
+		_ = os.WriteFile(path, []byte("not a Spec at all: [\n"), 0o600)
+	}
 	var werr error
 	p, msg := hx.Guard(func() { werr = cache.WriteSpec(s, name) })
 	if p {
@@ -204,8 +215,13 @@ func addSpec09(s *hx.Suite, scratch string, idx *int, class string, sp *specs.Sp
 		return
 	}
 	image := d.coqOrdered()
+	origTerm, origJSON := specTerm(sp), specJSON(sp)
 	dir := filepath.Join(scratch, "rt")
 	var backs [3]back09
+	var known [3]int
+	for enc := 0; enc < 3; enc++ {
+		known[enc] = knownClass09(enc, sp)
+	}
 	for enc := 0; enc < 3; enc++ {
 		backs[enc] = roundTrip09(dir, *idx, enc, sp)
 	}
@@ -216,11 +232,11 @@ func addSpec09(s *hx.Suite, scratch string, idx *int, class string, sp *specs.Sp
 		if enc == 0 {
 			otherEnc = 1
 		}
-		if knownClass09(otherEnc, sp) == 0 {
+		if known[otherEnc] == 0 {
 			other = optSpecTerm(backs[otherEnc])
 		}
-		k := knownClass09(enc, sp)
-		desc := map[string]interface{}{"spec": specJSON(sp), "encoding": []string{".json", ".yaml", "no extension (YAML)"}[enc], "read_back_ok": backs[enc].ok,
+		k := known[enc]
+		desc := map[string]interface{}{"spec": origJSON, "encoding": []string{".json", ".yaml", "no extension (YAML)"}[enc], "read_back_ok": backs[enc].ok,
 			"cache_same": backs[enc].cacheSame, "note": note}
 		if backs[enc].ok {
 			desc["read_back"] = specJSON(backs[enc].spec)
@@ -229,7 +245,7 @@ func addSpec09(s *hx.Suite, scratch string, idx *int, class string, sp *specs.Sp
 			desc["problem"] = backs[enc].panicMsg
 		}
 		s.Add(hx.Case{
-			Term:       chunkLiterals(hx.C("Case09", specTerm(sp), hx.Nat(enc), image, optSpecTerm(backs[enc]), hx.B(backs[enc].cacheSame), other, hx.Nat(k))),
+			Term:       chunkLiterals(hx.C("Case09", origTerm, hx.Nat(enc), image, optSpecTerm(backs[enc]), hx.B(backs[enc].cacheSame), other, hx.Nat(k))),
 			Desc:       desc,
 			Class:      class,
 			Known:      knownIDs09[k],
@@ -334,22 +350,54 @@ func addLit09(s *hx.Suite, scratch string, idx *int, str string) {
 }
 
 // a string case costs coqc about 1/40 of a Spec case
-const strCost09 = 0.025
+var strCost09 = 0.025 // quick tier: 0.05 (shards of 1200: the last shards of a run are these, smaller ones end the run sooner)
 
-// a minimal valid Spec carrying str in every kind of string position where any string is valid
-func stringSpec09(str string) *specs.Spec {
+// a minimal valid Spec carrying str in every kind of string position where it is valid: annotation value, env value, hook
+// argument / env value / path, mount host path (prefixed and alone) / container path / option / type, device node path / host
+// path, the three intelRdt strings, and — when the string is legal there — a device name, an annotation key (Spec and device
+// level), the class and the vendor of the kind
+func stringSpec09(str string) *specs.Spec { return stringSpecIn09(str, 7) }
+
+// groups (bits): 1 the intelRdt strings, 2 the paths that must not be empty (device node, hook, mount), 4 the positions with a
+// grammar (device name, annotation key, class / vendor).  The dictionaries go everywhere; the strings of the code point sweep
+// take one group each in turn (a Spec case costs the judge some 25 ms per record).
+func stringSpecIn09(str string, groups int) *specs.Spec {
 	s := &specs.Spec{Version: "0.6.0", Kind: "vendor.com/class", Annotations: map[string]string{"example.com/note": str}}
 	e := specs.ContainerEdits{
 		Env:    []string{"V=" + str},
 		Hooks:  []*specs.Hook{{HookName: "prestart", Path: "/bin/h", Args: []string{"a", str, "z"}, Env: []string{"H=" + str}}},
 		Mounts: []*specs.Mount{{HostPath: "/h" + str, ContainerPath: "/c", Options: []string{str}}},
 	}
+	if groups&1 != 0 {
+		rdt := &specs.IntelRdt{L3CacheSchema: str, MemBwSchema: str}
+		if (&cdi.IntelRdt{IntelRdt: &specs.IntelRdt{ClosID: str}}).Validate() == nil {
+			rdt.ClosID = str
+		}
+		e.IntelRdt = rdt
+	}
 	if str != "" {
 		e.Mounts[0].Type = str
 		e.DeviceNodes = []*specs.DeviceNode{{Path: "/dev/x", HostPath: str}}
-		s.Version = "0.6.0"
+		if groups&2 != 0 {
+			e.DeviceNodes = append(e.DeviceNodes, &specs.DeviceNode{Path: str})
+			e.Hooks = append(e.Hooks, &specs.Hook{HookName: "poststop", Path: str})
+			e.Mounts = append(e.Mounts, &specs.Mount{HostPath: str, ContainerPath: str})
+		}
 	}
 	s.Devices = []specs.Device{{Name: "dev0", ContainerEdits: e}}
+	if groups&4 != 0 && parser.ValidateDeviceName(str) == nil && str != "dev0" {
+		s.Devices = append(s.Devices, specs.Device{Name: str, ContainerEdits: specs.ContainerEdits{Env: []string{"N=1"}}})
+	}
+	if groups&4 != 0 && str != "example.com/note" && cdi.VerifValidateAnnotations(map[string]string{str: ""}) == nil {
+		s.Annotations[str] = "key"
+		s.Devices[0].Annotations = map[string]string{str: str}
+	}
+	if groups&4 != 0 && parser.ValidateClassName(str) == nil {
+		s.Kind = "vendor.com/" + str
+		if parser.ValidateVendorName(str) == nil {
+			s.Kind = str + "/" + str
+		}
+	}
 	if v, err := specs.MinimumRequiredVersion(s); err == nil {
 		s.Version = v
 	}
@@ -377,7 +425,24 @@ var yamlDict09 = []string{"yes", "no", "on", "off", "y", "n", "true", "True", "N
 	"\\n", "\\u0041", " x", "x ", "  x  ", "\tx", "x\t", "\n", "\nx", "x\n", "x\n\ny", "x\ny\n", "\r", "x\ry", "\r\n", "x\r\ny", "---", "...", "--- x", "%TAG", "@x", "`x", "|", ">", "|-", ">+",
 	"{", "}", "[", "]", "{a: b}", "[a, b]", ",", "a,b", "\u0085", "\u2028", "\u2029", "\ufeff", "\ufeffx", "é", "日本語", "😀", "\U0001F600x", "a\u0000b", "\u0001", "\u001b[0m", "~",
 	// a backslash followed by what looks like one of encoding/json's own escapes: survives only if nothing rewrites the written bytes
-	"\\u003c", "a\\u0026b", "\\\\u003e", "\\u2028", "<\\u003c>&"}
+	"\\u003c", "a\\u0026b", "\\\\u003e", "\\u2028", "<\\u003c>&",
+	// spellings of paths which a cleaning step would rewrite
+	"a//b", "./x", "x/", "/..", "a/./b", "/", "//", "../x", "/a/../b", "x/."}
+
+// YAML-sensitive spellings that are legal device names, annotation keys, classes: numbers in every YAML 1.1 / 1.2 notation,
+// sexagesimals, booleans, null, dates
+var yamlNames09 = []string{"y", "Y", "n", "N", "yes", "No", "ON", "off", "true", "TRUE", "False", "null", "Null", "NaN", "inf", "0", "00", "0123", "0o17", "0x1F", "0b11",
+	"1e3", "1E3", "1e-3", "1.5", "1.e3", "0.0", "1_000", "1_0.5", "4_2", "12:30", "1:2:3", "190:20:30.15", "2001-12-14", "2001-12-14t21:59:43.10-05:00", "1-2", "a.b", "a:b", "x-", "e1"}
+
+// long strings: the YAML writer folds plain and quoted scalars at blanks beyond its line width
+func longStrings09() []string {
+	l := func(unit string, n int) string { return strings.Repeat(unit, n) }
+	return []string{l("word ", 40), l("word ", 40) + " ", l("ab  cd ", 30), l("key: value ", 20), l("a #b ", 30), "'" + l("it's a \"test\" ", 20),
+		l("tab\there and \\ backslash \u00e9 ", 10), l("bell\x07 and words ", 12), l("word ", 30) + "\n" + l("next ", 30), l("x", 300), l(" ", 100), " " + l("word ", 30),
+		l("\u65e5\u672c\u8a9e \u30c6\u30ad\u30b9\u30c8 ", 20), l("\U0001F600 ", 60), l("word ", 30) + "\n", l("word ", 30) + "\n\n", l("word\u00a0word ", 20), l("word\u2028word ", 20),
+		l("word\t", 40), l("word \tword", 20), l("word ", 20) + "\r" + l("word ", 20), l("word ", 20) + ":", "- " + l("word ", 30), "? " + l("word ", 30), l("1", 100),
+		l("say \"hi\" \\n ", 20), l("word ", 15) + l(" ", 10) + l("word ", 15), l("a ", 45), l("word ", 16) + "x", l("word ", 15) + "abcd"}
+}
 
 func genC09(r *hx.R, tier, scratch string) (*hx.Suite, error) {
 	s := &hx.Suite{Property: "C09", Imports: []string{"Base", "SpecModel", "Doc", "Decode", "Codec", "JsonString", "Judge09"}, CaseType: "case09", Judge: "judge09", Shard: 60,
@@ -385,6 +450,10 @@ func genC09(r *hx.R, tier, scratch string) (*hx.Suite, error) {
 		
 		Rule: "every Spec is written through Cache.WriteSpec under a .json name, a .yaml name and an extension-less name, read back with cdi.ReadSpec and loaded through the cache; structure stream: valid Specs over pairwise combinations of the 32 optional fields with 1-3 devices and list elements, and numeric extremes of every integer field; scalar stream: strings (code points U+0000..U+3000 sampled in quick / all in thorough, alone and embedded, U+FFFE/U+FFFF, non-BMP, a YAML-sensitive dictionary, newlines and blanks in every position) placed in every kind of string position (scalar member, list element, map value, env value); string stream (no files: json.Marshal of the string, then sigs.k8s.io/yaml UnmarshalStrict of the literal as a member value): every code point U+0000..U+FFFF (quick: in runs of 16 consecutive code points, alone where anything is treated specially and for a random 1/32; thorough: each alone as well), code points embedded in seven contexts, a sample beyond the BMP, random strings over an alphabet of every specially treated character, long strings, U+0085 followed by document indicators, and byte strings that are not valid UTF-8; non-trivial: all cases (each is a distinct Spec x encoding or a distinct string)"}
 	idx := 0
+	strCost09 = 0.025
+	if tier != "thorough" {
+		strCost09 = 0.05
+	}
 	// --- structure: pairwise option vectors
 	vectors := pairwise05(r)
 	nStruct := 10
@@ -448,6 +517,34 @@ func genC09(r *hx.R, tier, scratch string) (*hx.Suite, error) {
 	// --- scalar layer
 	var strs []string
 	strs = append(strs, yamlDict09...)
+	strs = append(strs, yamlNames09...)
+	everywhere := map[string]bool{}
+	for _, x := range strs {
+		everywhere[x] = true
+	}
+	lean := map[string]bool{} // the longest legal keys: the positions with a grammar only (long strings take one group in turn, as the sweep does)
+	{
+		ls := longStrings09()
+		if tier != "thorough" {
+			perm := r.Perm(len(ls))[:8]
+			var pick []string
+			for _, i := range perm {
+				pick = append(pick, ls[i])
+			}
+			ls = pick
+		}
+		strs = append(strs, ls...)
+	}
+	// the longest legal annotation key (253-byte prefix, 63-byte name: the YAML writer switches to the explicit "? key" form beyond 128)
+	{
+		label := strings.Repeat("a", 61)
+		keys := []string{label + "." + label + "." + label + "." + label + ".abcde/" + strings.Repeat("N", 63), strings.Repeat("k", 63), strings.Repeat("a", 60) + ".b/c",
+			strings.Repeat("d", 129), strings.Repeat("d", 128)}
+		for _, k := range keys {
+			strs = append(strs, k)
+			lean[k] = true
+		}
+	}
 	step := 97
 	if tier == "thorough" {
 		step = 1
@@ -483,7 +580,13 @@ func genC09(r *hx.R, tier, scratch string) (*hx.Suite, error) {
 			continue
 		}
 		seen[str] = true
-		addSpec09(s, scratch, &idx, "scalar", stringSpec09(str), map[string]interface{}{"string": hx.JS(str)})
+		groups := 1 << (len(seen) % 3)
+		if everywhere[str] {
+			groups = 7
+		} else if lean[str] {
+			groups = 4
+		}
+		addSpec09(s, scratch, &idx, "scalar", stringSpecIn09(str, groups), map[string]interface{}{"string": hx.JS(str), "position groups": groups})
 	}
 	// the literals in the files the library writes
 	nLit := 0
